@@ -141,23 +141,23 @@ Section Unfold.
 
   Lemma ev_num d en : ev (Node (HNum d) []) en = XR (D2R d).
   Proof. reflexivity. Qed.
-  Lemma ev_numZ z en : ev (ENumZ z) en = XR (IZR z).
-  Proof. unfold ENumZ. rewrite ev_num. unfold D2R. cbn [fst snd powerRZ]. f_equal. ring. Qed.
-  Lemma ev_bin op a b en : ev (EBin op a b) en = xbin op (ev a en) (ev b en).
+  Lemma ev_numZ z en : ev (Node (HNum (z, 0%Z)) []) en = XR (IZR z).
+  Proof. rewrite ev_num. unfold D2R. cbn [fst snd powerRZ]. f_equal. ring. Qed.
+  Lemma ev_bin op a b en : ev (Node (HBin op) [a; b]) en = xbin op (ev a en) (ev b en).
   Proof. reflexivity. Qed.
-  Lemma ev_uminus a en : ev (EUn UMinus a) en = lift1 Ropp (ev a en).
+  Lemma ev_uminus a en : ev (Node (HUn UMinus) [a]) en = lift1 Ropp (ev a en).
   Proof. reflexivity. Qed.
-  Lemma ev_exp a en : ev (EUn Exp a) en = xun Phi Exp (ev a en).
+  Lemma ev_exp a en : ev (Node (HUn Exp) [a]) en = xun Phi Exp (ev a en).
   Proof. reflexivity. Qed.
-  Lemma ev_log a en : ev (EUn Log a) en = xun Phi Log (ev a en).
+  Lemma ev_log a en : ev (Node (HUn Log) [a]) en = xun Phi Log (ev a en).
   Proof. reflexivity. Qed.
-  Lemma ev_sin a en : ev (EUn Sin a) en = lift1 sin (ev a en).
+  Lemma ev_sin a en : ev (Node (HUn Sin) [a]) en = lift1 sin (ev a en).
   Proof. reflexivity. Qed.
-  Lemma ev_cos a en : ev (EUn Cos a) en = lift1 cos (ev a en).
+  Lemma ev_cos a en : ev (Node (HUn Cos) [a]) en = lift1 cos (ev a en).
   Proof. reflexivity. Qed.
-  Lemma ev_ncdf a en : ev (EUn NormalCdf a) en = lift1 Phi (ev a en).
+  Lemma ev_ncdf a en : ev (Node (HUn NormalCdf) [a]) en = lift1 Phi (ev a en).
   Proof. reflexivity. Qed.
-  Lemma ev_powc a c en : ev (EPowC a c) en = xpowc c (ev a en).
+  Lemma ev_powc a c en : ev (Node (HPowC c) [a]) en = xpowc c (ev a en).
   Proof. reflexivity. Qed.
   Lemma ev_multsum l en : ev (Node HMultSum l) en = xsum (map (fun k => ev k en) l).
   Proof. rewrite evalX_eq'. reflexivity. Qed.
@@ -237,6 +237,22 @@ Section Unfold.
         f_equal. f_equal; [apply Hr | apply map_ext; exact Hr].
   Qed.
 
+  Lemma upd_beta_same en w x n f : is_wrt w (HBeta n f) = true -> e_beta (upd en w x) n = Some x.
+  Proof.
+    destruct w as [b|b|b]; cbn [is_wrt]; try discriminate. intros E. apply String.eqb_eq in E.
+    subst n. cbn [upd e_beta]. apply set_name_same.
+  Qed.
+  Lemma upd_var_same en w x n : is_wrt w (HVar n) = true -> e_var (upd en w x) n = Some x.
+  Proof.
+    destruct w as [b|b|b]; cbn [is_wrt]; try discriminate. intros E. apply String.eqb_eq in E.
+    subst n. cbn [upd e_var]. apply set_name_same.
+  Qed.
+  Lemma upd_rv_same en w x n : is_wrt w (HRV n) = true -> e_rv (upd en w x) n = Some x.
+  Proof.
+    destruct w as [b|b|b]; cbn [is_wrt]; try discriminate. intros E. apply String.eqb_eq in E.
+    subst n. cbn [upd e_rv]. apply set_name_same.
+  Qed.
+
   Lemma pfree_nomention ws w e : In w ws -> pfree ws e = true -> mentions w e = false.
   Proof.
     intros Hin H. unfold pfree in H. rewrite forallb_forall in H.
@@ -253,21 +269,25 @@ Section Unfold.
 End Unfold.
 
 (* ------------------------------------------------------------------ calculus helpers *)
-Lemma locally_pos (f : R -> R) x0 d : is_derive f x0 d -> 0 < f x0 -> locally x0 (fun x => 0 < f x).
+Lemma locally_pos (f : R -> R) (x0 d : R) :
+  is_derive f x0 d -> 0 < f x0 -> locally x0 (fun x => 0 < f x).
 Proof.
   intros Hd Hp.
-  assert (Hc : continuous f x0) by (apply ex_derive_continuous; exists d; exact Hd).
+  assert (Hc : continuous f x0).
+  { apply (ex_derive_continuous (K:=R_AbsRing) (V:=R_NormedModule) f x0). exists d; exact Hd. }
   apply (Hc (fun y => 0 < y)). apply (open_gt 0 (f x0) Hp).
 Qed.
 
-Lemma locally_neq0 (f : R -> R) x0 d : is_derive f x0 d -> f x0 <> 0 -> locally x0 (fun x => f x <> 0).
+Lemma locally_neq0 (f : R -> R) (x0 d : R) :
+  is_derive f x0 d -> f x0 <> 0 -> locally x0 (fun x => f x <> 0).
 Proof.
   intros Hd Hp.
-  assert (Hc : continuous f x0) by (apply ex_derive_continuous; exists d; exact Hd).
+  assert (Hc : continuous f x0).
+  { apply (ex_derive_continuous (K:=R_AbsRing) (V:=R_NormedModule) f x0). exists d; exact Hd. }
   apply (Hc (fun y => y <> 0)). apply (open_neq 0 (f x0) Hp).
 Qed.
 
-Lemma is_derive_Rpower_c (S : R -> R) S' x p :
+Lemma is_derive_Rpower_c (S : R -> R) (S' x p : R) :
   is_derive S x S' -> 0 < S x ->
   is_derive (fun t => Rpower (S t) p) x (p * Rpower (S x) (p - 1) * S').
 Proof.
@@ -279,13 +299,1067 @@ Proof.
     rewrite exp_plus, exp_Ropp, exp_ln by assumption. field. lra.
 Qed.
 
-Lemma is_derive_powerRZ_c (S : R -> R) S' x n :
+Lemma is_derive_powerRZ_c (S : R -> R) (S' x : R) n :
   is_derive S x S' -> ((0 <= n)%Z \/ S x <> 0) ->
   is_derive (fun t => powerRZ (S t) n) x (IZR n * powerRZ (S x) (n - 1) * S').
 Proof.
   intros HS Hn.
-  replace (IZR n * powerRZ (S x) (n - 1) * S') with (scal S' (IZR n * powerRZ (S x) (n - 1)))
-    by (unfold scal; cbn; unfold mult; cbn; ring).
-  apply (is_derive_comp (fun y => powerRZ y n) S x); [|exact HS].
-  apply is_derive_powerRZ. exact Hn.
+  assert (HD : Derive (fun x0 : R => S x0) x = S') by (apply is_derive_unique; exact HS).
+  destruct n as [|p|p].
+  - cbn [powerRZ]. auto_derive; [exact I | ring].
+  - cbn [powerRZ]. auto_derive; [exists S'; exact HS|]. rewrite HD.
+    destruct (Pos2Nat.is_succ p) as [j Hj].
+    replace (Z.pos p - 1)%Z with (Z.of_nat j) by lia.
+    rewrite <- pow_powerRZ. rewrite Hj. cbn [Init.Nat.pred].
+    replace (IZR (Z.pos p)) with (INR (Datatypes.S j)) by (rewrite INR_IZR_INZ; f_equal; lia).
+    ring.
+  - assert (Hx : S x <> 0) by (destruct Hn as [Hn|Hn]; [lia | exact Hn]).
+    destruct (Pos2Nat.is_succ p) as [j Hj].
+    replace (Z.neg p - 1)%Z with (Z.neg (p + 1)) by lia.
+    cbn [powerRZ]. replace (Pos.to_nat (p + 1)) with (Datatypes.S (Datatypes.S j)) by lia.
+    auto_derive.
+    + split; [exists S'; exact HS|]. split; [apply pow_nonzero; exact Hx | exact I].
+    + rewrite HD, Hj. cbn [Init.Nat.pred].
+      replace (IZR (Z.neg p)) with (- INR (Datatypes.S j))
+        by (rewrite INR_IZR_INZ, <- opp_IZR; f_equal; lia).
+      assert (Hj' : S x ^ j <> 0) by (apply pow_nonzero; exact Hx).
+      cbn [pow]. field. split; assumption.
 Qed.
+
+(* ------------------------------------------------------------------ list helpers *)
+Lemma Forall_mp {A} (P Q : A -> Prop) l :
+  Forall (fun a => P a -> Q a) l -> Forall P l -> Forall Q l.
+Proof. induction 1; intros H'; inversion H'; subst; constructor; auto. Qed.
+
+Lemma assoc_Z_map {A B} (g : A -> B) k keys (l : list A) :
+  assoc_Z k keys (map g l) = option_map g (assoc_Z k keys l).
+Proof.
+  revert l. induction keys as [|k' keys IH]; intros [|a l]; cbn [assoc_Z map option_map]; try reflexivity.
+  destruct (k =? k')%Z; [reflexivity | apply IH].
+Qed.
+
+Lemma assoc_Z_In {A} k keys (l : list A) a : assoc_Z k keys l = Some a -> In a l.
+Proof.
+  revert l. induction keys as [|k' keys IH]; intros [|a' l]; cbn [assoc_Z]; try discriminate.
+  destruct (k =? k')%Z.
+  - intros H; injection H as <-. left; reflexivity.
+  - intros H. right. apply IH, H.
+Qed.
+
+Lemma assoc_Z_combine {A} k keys (l : list A) a :
+  assoc_Z k keys l = Some a -> In (k, a) (combine keys l).
+Proof.
+  revert l. induction keys as [|k' keys IH]; intros [|a' l]; cbn [assoc_Z combine]; try discriminate.
+  destruct (Z.eqb_spec k k') as [->|].
+  - intros H; injection H as <-. left; reflexivity.
+  - intros H. right. apply IH, H.
+Qed.
+
+Lemma xsum_cons a l : xsum (a :: l) = lift2 Rplus a (xsum l).
+Proof. reflexivity. Qed.
+
+(* ------------------------------------------------------------------ the main induction *)
+Section Correct.
+  Variable Phi : R -> R.
+  Hypothesis Phi_derive : forall x, is_derive Phi x (D2R inv_sqrt_2pi * exp (- (x * x / 2))).
+  Variable ws : list wrt.
+  Variable w : wrt.
+  Hypothesis Hw : In w ws.
+  Variable en : env.
+  Variable x0 : R.
+  Notation ev := (evalX Phi).
+  Notation en0 := (upd en w x0).
+  Ltac nf := unfold normal_density, zero, one, two, EBin, EUn, EPowC, ENumZ in *.
+
+  (* e is, around x0, a real-valued differentiable function of the value of w, and the tree
+     [D w e] evaluates to its derivative *)
+  Definition good (e : expr) : Prop :=
+    exists (f : R -> R) (d : R),
+      locally x0 (fun x => ev e (upd en w x) = XR (f x)) /\
+      is_derive f x0 d /\
+      ev (D w e) en0 = XR d.
+
+  Lemma ev_const e x : mentions w e = false -> ev e (upd en w x) = ev e en0.
+  Proof. intros H. rewrite !(evalX_upd_nomention Phi) by exact H. reflexivity. Qed.
+
+  Lemma good_const e r : mentions w e = false -> ev e en0 = XR r -> good e.
+  Proof.
+    intros Hm Hv. exists (fun _ => r), 0. split; [|split].
+    - apply filter_forall. intros x. rewrite ev_const by exact Hm. exact Hv.
+    - apply @is_derive_const.
+    - rewrite D_nomention by exact Hm. unfold zero, ENumZ. rewrite ev_numZ. reflexivity.
+  Qed.
+
+  Lemma good_of_struct h kids :
+    (exists (f : R -> R) (d : R),
+        locally x0 (fun x => ev (Node h kids) (upd en w x) = XR (f x)) /\
+        is_derive f x0 d /\
+        ev (dnode w h kids (map (D w) kids)) en0 = XR d) ->
+    good (Node h kids).
+  Proof.
+    intros (f & d & L & Hd & V).
+    destruct (mentions w (Node h kids)) eqn:E.
+    - exists f, d. rewrite D_eq, E. auto.
+    - apply (good_const _ (f x0)); [exact E|]. exact (locally_singleton _ _ L).
+  Qed.
+
+  Lemma good_val e : good e -> exists r, ev e en0 = XR r.
+  Proof. intros (f & d & L & _ & _). exists (f x0). exact (locally_singleton _ _ L). Qed.
+
+  (* ---------------------------------------------------------------- leaves *)
+  Lemma good_beta n fx r : e_beta en0 n = Some r -> good (Node (HBeta n fx) []).
+  Proof.
+    intros Hr. destruct (is_wrt w (HBeta n fx)) eqn:E.
+    - apply good_of_struct. exists (fun x => x), 1. split; [|split].
+      + apply filter_forall. intros x. rewrite evalX_eq'. cbn [map].
+        rewrite (upd_beta_same _ _ _ _ fx E). reflexivity.
+      + apply @is_derive_id.
+      + cbn [dnode map]. nf. rewrite E. unfold one, ENumZ. apply ev_numZ.
+    - apply (good_const _ r); [|rewrite evalX_eq'; cbn [map]; rewrite Hr; reflexivity].
+      cbn [mentions existsb]. rewrite E. reflexivity.
+  Qed.
+
+  Lemma good_var n r : e_var en0 n = Some r -> good (Node (HVar n) []).
+  Proof.
+    intros Hr. destruct (is_wrt w (HVar n)) eqn:E.
+    - apply good_of_struct. exists (fun x => x), 1. split; [|split].
+      + apply filter_forall. intros x. rewrite evalX_eq'. cbn [map].
+        rewrite (upd_var_same _ _ _ _ E). reflexivity.
+      + apply @is_derive_id.
+      + cbn [dnode map]. nf. rewrite E. unfold one, ENumZ. apply ev_numZ.
+    - apply (good_const _ r); [|rewrite evalX_eq'; cbn [map]; rewrite Hr; reflexivity].
+      cbn [mentions existsb]. rewrite E. reflexivity.
+  Qed.
+
+  Lemma good_rv n r : e_rv en0 n = Some r -> good (Node (HRV n) []).
+  Proof.
+    intros Hr. destruct (is_wrt w (HRV n)) eqn:E.
+    - apply good_of_struct. exists (fun x => x), 1. split; [|split].
+      + apply filter_forall. intros x. rewrite evalX_eq'. cbn [map].
+        rewrite (upd_rv_same _ _ _ _ E). reflexivity.
+      + apply @is_derive_id.
+      + cbn [dnode map]. nf. rewrite E. unfold one, ENumZ. apply ev_numZ.
+    - apply (good_const _ r); [|rewrite evalX_eq'; cbn [map]; rewrite Hr; reflexivity].
+      cbn [mentions existsb]. rewrite E. reflexivity.
+  Qed.
+
+  (* ---------------------------------------------------------------- scalar operators *)
+  (* unpack a [good] hypothesis, with the value at the point *)
+  Ltac unpack H f d :=
+    let L := fresh "L" f in let Dv := fresh "D" f in let V := fresh "V" f in let E0 := fresh "E" f in
+    destruct H as (f & d & L & Dv & V);
+    pose proof (locally_singleton _ _ L) as E0; cbv beta in E0.
+
+  Ltac evs :=
+    repeat (progress rewrite ?ev_bin, ?ev_numZ, ?ev_num, ?ev_uminus, ?ev_exp, ?ev_log, ?ev_sin, ?ev_cos,
+                     ?ev_ncdf, ?ev_powc).
+
+  Ltac dun H f d :=
+    replace (Derive (fun y : R => f y) x0) with d by (symmetry; apply is_derive_unique; exact H).
+
+  Lemma good_plus a c : good a -> good c -> good (EBin Plus a c).
+  Proof.
+    intros Ha Hc. unpack Ha fa da. unpack Hc fc dc.
+    nf. apply good_of_struct. exists (fun x => fa x + fc x), (da + dc). split; [|split].
+    - generalize (filter_and _ _ Lfa Lfc). apply filter_imp. intros x [E1 E2].
+      rewrite ev_bin, E1, E2. reflexivity.
+    - apply @is_derive_plus; assumption.
+    - cbn [dnode map]. nf. rewrite ev_bin, Vfa, Vfc. reflexivity.
+  Qed.
+
+  Lemma good_minus a c : good a -> good c -> good (EBin Minus a c).
+  Proof.
+    intros Ha Hc. unpack Ha fa da. unpack Hc fc dc.
+    nf. apply good_of_struct. exists (fun x => fa x - fc x), (da - dc). split; [|split].
+    - generalize (filter_and _ _ Lfa Lfc). apply filter_imp. intros x [E1 E2].
+      rewrite ev_bin, E1, E2. reflexivity.
+    - apply @is_derive_minus; assumption.
+    - cbn [dnode map]. nf. rewrite ev_bin, Vfa, Vfc. reflexivity.
+  Qed.
+
+  Lemma good_times a c : good a -> good c -> good (EBin Times a c).
+  Proof.
+    intros Ha Hc. unpack Ha fa da. unpack Hc fc dc.
+    nf. apply good_of_struct. exists (fun x => fa x * fc x), (da * fc x0 + fa x0 * dc). split; [|split].
+    - generalize (filter_and _ _ Lfa Lfc). apply filter_imp. intros x [E1 E2].
+      rewrite ev_bin, E1, E2. reflexivity.
+    - auto_derive.
+      + split; [exists da; exact Dfa|]. split; [exists dc; exact Dfc|exact I].
+      + dun Dfa fa da. dun Dfc fc dc. ring.
+    - cbn [dnode map]. nf. rewrite !ev_bin, Vfa, Vfc, Efa, Efc. reflexivity.
+  Qed.
+
+  Lemma good_divide a c v : good a -> good c -> ev c en0 = XR v -> v <> 0 -> good (EBin Divide a c).
+  Proof.
+    intros Ha Hc Hv Hnz. unpack Ha fa da. unpack Hc fc dc.
+    assert (fc x0 = v) by congruence. subst v.
+    nf. apply good_of_struct.
+    exists (fun x => fa x / fc x), ((da * fc x0 - fa x0 * dc) / (fc x0 * fc x0)). split; [|split].
+    - generalize (filter_and _ _ (filter_and _ _ Lfa Lfc) (locally_neq0 _ _ _ Dfc Hnz)).
+      apply filter_imp. intros x [[E1 E2] E3].
+      rewrite ev_bin, E1, E2. cbn [xbin]. rewrite Rnz_true by exact E3. reflexivity.
+    - auto_derive.
+      + split; [exists da; exact Dfa|]. split; [exists dc; exact Dfc|]. split; [exact Hnz|exact I].
+      + dun Dfa fa da. dun Dfc fc dc. field. exact Hnz.
+    - cbn [dnode map]. nf. rewrite !ev_bin, Vfa, Vfc, Efa, Efc. cbn [xbin lift2].
+      rewrite Rnz_true; [reflexivity|]. apply Rmult_integral_contrapositive; split; exact Hnz.
+  Qed.
+
+  Lemma good_power a c v : good a -> good c -> ev a en0 = XR v -> 0 < v -> good (EBin Power a c).
+  Proof.
+    intros Ha Hc Hv Hpos. unpack Ha fa da. unpack Hc fc dc.
+    assert (fa x0 = v) by congruence. subst v.
+    nf. apply good_of_struct.
+    exists (fun x => Rpower (fa x) (fc x)),
+           (Rpower (fa x0) (fc x0) * (dc * ln (fa x0) + fc x0 * da / fa x0)). split; [|split].
+    - generalize (filter_and _ _ (filter_and _ _ Lfa Lfc) (locally_pos _ _ _ Dfa Hpos)).
+      apply filter_imp. intros x [[E1 E2] E3].
+      rewrite ev_bin, E1, E2. cbn [xbin]. rewrite Rltb'_true by exact E3. reflexivity.
+    - unfold Rpower. auto_derive.
+      + split; [exists dc; exact Dfc|]. split; [exists da; exact Dfa|]. split; [exact Hpos|exact I].
+      + dun Dfa fa da. dun Dfc fc dc. field. lra.
+    - cbn [dnode map]. nf. evs. rewrite Vfa, Vfc, Efa, Efc. cbn [xbin lift2 xun].
+      rewrite !Rltb'_true by exact Hpos. cbn [lift2]. rewrite Rnz_true by lra. reflexivity.
+  Qed.
+
+  Lemma good_uminus a : good a -> good (EUn UMinus a).
+  Proof.
+    intros Ha. unpack Ha fa da.
+    nf. apply good_of_struct. exists (fun x => - fa x), (- da). split; [|split].
+    - generalize Lfa. apply filter_imp. intros x E1. rewrite ev_uminus, E1. reflexivity.
+    - apply @is_derive_opp; assumption.
+    - cbn [dnode map]. nf. rewrite ev_uminus, Vfa. reflexivity.
+  Qed.
+
+  Lemma good_exp a : good a -> good (EUn Exp a).
+  Proof.
+    intros Ha. unpack Ha fa da.
+    nf. apply good_of_struct. exists (fun x => exp (fa x)), (exp (fa x0) * da). split; [|split].
+    - generalize Lfa. apply filter_imp. intros x E1. rewrite ev_exp, E1. reflexivity.
+    - auto_derive; [exists da; exact Dfa|]. dun Dfa fa da. ring.
+    - cbn [dnode map]. nf. rewrite ev_bin, ev_exp, Vfa, Efa. reflexivity.
+  Qed.
+
+  Lemma good_log a v : good a -> ev a en0 = XR v -> 0 < v -> good (EUn Log a).
+  Proof.
+    intros Ha Hv Hpos. unpack Ha fa da.
+    assert (fa x0 = v) by congruence. subst v.
+    nf. apply good_of_struct. exists (fun x => ln (fa x)), (da / fa x0). split; [|split].
+    - generalize (filter_and _ _ Lfa (locally_pos _ _ _ Dfa Hpos)). apply filter_imp.
+      intros x [E1 E2]. rewrite ev_log, E1. cbn [xun]. rewrite Rltb'_true by exact E2. reflexivity.
+    - auto_derive; [split; [exists da; exact Dfa|split; [exact Hpos|exact I]]|].
+      dun Dfa fa da. field. lra.
+    - cbn [dnode map]. nf. rewrite ev_bin, Vfa, Efa. cbn [xbin]. rewrite Rnz_true by lra. reflexivity.
+  Qed.
+
+  Lemma good_sin a : good a -> good (EUn Sin a).
+  Proof.
+    intros Ha. unpack Ha fa da.
+    nf. apply good_of_struct. exists (fun x => sin (fa x)), (cos (fa x0) * da). split; [|split].
+    - generalize Lfa. apply filter_imp. intros x E1. rewrite ev_sin, E1. reflexivity.
+    - auto_derive; [exists da; exact Dfa|]. dun Dfa fa da. ring.
+    - cbn [dnode map]. nf. rewrite ev_bin, ev_cos, Vfa, Efa. reflexivity.
+  Qed.
+
+  Lemma good_cos a : good a -> good (EUn Cos a).
+  Proof.
+    intros Ha. unpack Ha fa da.
+    nf. apply good_of_struct. exists (fun x => cos (fa x)), (- (sin (fa x0) * da)). split; [|split].
+    - generalize Lfa. apply filter_imp. intros x E1. rewrite ev_cos, E1. reflexivity.
+    - auto_derive; [exists da; exact Dfa|]. dun Dfa fa da. ring.
+    - cbn [dnode map]. nf. rewrite ev_uminus, ev_bin, ev_sin, Vfa, Efa. reflexivity.
+  Qed.
+
+  Lemma good_normalcdf a : good a -> good (EUn NormalCdf a).
+  Proof.
+    intros Ha. unpack Ha fa da.
+    nf. apply good_of_struct.
+    exists (fun x => Phi (fa x)), (D2R inv_sqrt_2pi * exp (- (fa x0 * fa x0 / 2)) * da). split; [|split].
+    - generalize Lfa. apply filter_imp. intros x E1. rewrite ev_ncdf, E1. reflexivity.
+    - replace (D2R inv_sqrt_2pi * exp (- (fa x0 * fa x0 / 2)) * da)
+        with (scal da (D2R inv_sqrt_2pi * exp (- (fa x0 * fa x0 / 2))))
+        by (unfold scal; cbn; unfold mult; cbn; ring).
+      apply (is_derive_comp Phi fa x0); [apply Phi_derive | exact Dfa].
+    - cbn [dnode map]. nf.       evs. rewrite Vfa, Efa.
+      cbn [xbin lift2 lift1 xun]. rewrite Rnz_true by lra. reflexivity.
+  Qed.
+
+  Lemma good_powc a c v : good a -> ev a en0 = XR v -> powc_ok c v -> good (EPowC a c).
+  Proof.
+    intros Ha Hv Hok. unpack Ha fa da.
+    assert (fa x0 = v) by congruence. subst v.
+    nf. apply good_of_struct. unfold powc_ok in Hok.
+    destruct (dyadic_is_int c) as [n|] eqn:Ec.
+    - (* integer exponent *)
+      exists (fun x => powerRZ (fa x) n), (IZR n * powerRZ (fa x0) (n - 1) * da). split; [|split].
+      + destruct (Z.leb_spec 0 n) as [Hn|Hn].
+        * generalize Lfa. apply filter_imp. intros x E1. rewrite ev_powc, E1. unfold xpowc.
+          rewrite Ec. destruct (Z.leb_spec 0 n); [reflexivity | lia].
+        * assert (Hx : fa x0 <> 0) by (destruct Hok; [lia | assumption]).
+          generalize (filter_and _ _ Lfa (locally_neq0 _ _ _ Dfa Hx)). apply filter_imp.
+          intros x [E1 E2]. rewrite ev_powc, E1. unfold xpowc. rewrite Ec.
+          destruct (Z.leb_spec 0 n); [lia|]. rewrite Rnz_true by exact E2. reflexivity.
+      + apply is_derive_powerRZ_c; assumption.
+      + cbn [dnode map]. nf. rewrite Ec.
+        destruct (Z.eq_dec n 0) as [->|Hn0].
+        * rewrite ev_numZ. f_equal. cbn. ring.
+        * assert (Hd : ev (Node (HBin Times) [Node (HBin Times) [Node (HNum c) []; Node (HPowC (dy_pred c)) [a]]; D w a]) en0
+                       = XR (IZR n * powerRZ (fa x0) (n - 1) * da)).
+          { evs. rewrite Vfa, Efa. unfold xpowc.
+            rewrite dy_pred_int, Ec. cbn [option_map].
+            rewrite (dyadic_is_int_D2R _ _ Ec).
+            destruct (Z.leb_spec 0 (n - 1)) as [H1|H1]; [reflexivity|].
+            assert (Hx : fa x0 <> 0) by (destruct Hok; [lia | assumption]).
+            rewrite Rnz_true by exact Hx. reflexivity. }
+          destruct n; [congruence | exact Hd | exact Hd].
+    - (* non-integer exponent: positive argument *)
+      exists (fun x => Rpower (fa x) (D2R c)), (D2R c * Rpower (fa x0) (D2R c - 1) * da).
+      split; [|split].
+      + generalize (filter_and _ _ Lfa (locally_pos _ _ _ Dfa Hok)). apply filter_imp.
+        intros x [E1 E2]. rewrite ev_powc, E1. unfold xpowc. rewrite Ec.
+        rewrite Rltb'_true by exact E2. reflexivity.
+      + apply is_derive_Rpower_c; assumption.
+      + cbn [dnode map]. nf. rewrite Ec.
+        evs. rewrite Vfa, Efa. unfold xpowc.
+        rewrite dy_pred_int, Ec. cbn [option_map]. rewrite Rltb'_true by exact Hok.
+        rewrite dy_pred_D2R. reflexivity.
+  Qed.
+
+  (* ---------------------------------------------------------------- n-ary operators *)
+  Notation evx x := (fun k => ev k (upd en w x)).
+  Notation ev0 := (fun k => ev k en0).
+
+  Lemma good_sum l :
+    Forall good l ->
+    exists (F : R -> R) (dF : R),
+      locally x0 (fun x => xsum (map (evx x) l) = XR (F x)) /\
+      is_derive F x0 dF /\
+      xsum (map (fun k => ev (D w k) en0) l) = XR dF.
+  Proof.
+    induction 1 as [|a l Ha Hl (F & dF & LF & DF & VF)].
+    - exists (fun _ => 0), 0. split; [|split].
+      + apply filter_forall. reflexivity.
+      + apply @is_derive_const.
+      + reflexivity.
+    - unpack Ha fa da.
+      exists (fun x => fa x + F x), (da + dF). split; [|split].
+      + generalize (filter_and _ _ Lfa LF). apply filter_imp. intros x [E1 E2].
+        cbn [map]. rewrite xsum_cons, E1, E2. reflexivity.
+      + apply @is_derive_plus; assumption.
+      + cbn [map]. rewrite xsum_cons, Vfa, VF. reflexivity.
+  Qed.
+
+  Lemma good_multsum l : Forall good l -> good (Node HMultSum l).
+  Proof.
+    intros H. destruct (good_sum l H) as (F & dF & LF & DF & VF).
+    apply good_of_struct. exists F, dF. split; [|split]; [|exact DF|].
+    - generalize LF. apply filter_imp. intros x E. rewrite ev_multsum. exact E.
+    - cbn [dnode]. rewrite ev_multsum, map_map. exact VF.
+  Qed.
+
+  Lemma dlin_flatten ps :
+    dlin (flatten_pairs ps) (map (D w) (flatten_pairs ps)) =
+    map (fun p => EBin Plus (EBin Times (D w (fst p)) (snd p)) (EBin Times (fst p) (D w (snd p)))) ps.
+  Proof.
+    induction ps as [|[b v] ps IH]; [reflexivity|].
+    cbn [flatten_pairs map dlin fst snd]. rewrite IH. reflexivity.
+  Qed.
+
+  Lemma good_linutil ps :
+    Forall (fun p => good (fst p) /\ good (snd p)) ps -> good (ELinUtil ps).
+  Proof.
+    intros H. unfold ELinUtil. apply good_of_struct.
+    cbn [dnode]. rewrite dlin_flatten. 
+    induction H as [|[b v] ps [Hb Hv] Hl (F & dF & LF & DF & VF)].
+    - exists (fun _ => 0), 0. split; [|split].
+      + apply filter_forall. reflexivity.
+      + apply @is_derive_const.
+      + reflexivity.
+    - cbn [fst snd] in Hb, Hv. unpack Hb fb db. unpack Hv fv dv.
+      exists (fun x => fb x * fv x + F x), (db * fv x0 + fb x0 * dv + dF). split; [|split].
+      + generalize (filter_and _ _ (filter_and _ _ Lfb Lfv) LF). apply filter_imp.
+        intros x [[E1 E2] E3]. rewrite ev_linutil in *. cbn [flatten_pairs map xlinutil].
+        rewrite E1, E2, E3. reflexivity.
+      + auto_derive.
+        * split; [exists db; exact Dfb|]. split; [exists dv; exact Dfv|]. split; [exists dF; exact DF|exact I].
+        * dun Dfb fb db. dun Dfv fv dv. dun DF F dF. ring.
+      + rewrite ev_multsum in *. cbn [map fst snd]. rewrite xsum_cons, VF. nf. evs.
+        rewrite Vfb, Vfv, Efb, Efv. reflexivity.
+  Qed.
+
+  Lemma dcond_flatten ps :
+    dcond (flatten_pairs ps) (map (D w) (flatten_pairs ps)) =
+    flatten_pairs (map (fun p => (fst p, D w (snd p))) ps).
+  Proof.
+    induction ps as [|[c t] ps IH]; [reflexivity|].
+    cbn [flatten_pairs map dcond fst snd]. rewrite IH. reflexivity.
+  Qed.
+
+  Lemma good_condsum ps :
+    Forall (fun p => mentions w (fst p) = false /\
+                     exists v, ev (fst p) en0 = XR v /\ (v <> 0 -> good (snd p))) ps ->
+    good (ECondSum ps).
+  Proof.
+    intros H. unfold ECondSum. apply good_of_struct.
+    cbn [dnode]. rewrite dcond_flatten.
+    induction H as [|[c t] ps (Hc & v & Hv & Ht) Hl (F & dF & LF & DF & VF)].
+    - exists (fun _ => 0), 0. split; [|split].
+      + apply filter_forall. reflexivity.
+      + apply @is_derive_const.
+      + reflexivity.
+    - cbn [fst snd] in Hc, Hv, Ht. rewrite ev_condsum in VF.
+      destruct (Rnz v) eqn:Ev.
+      + apply Rnz_true_inv in Ev. specialize (Ht Ev). unpack Ht ft dt.
+        exists (fun x => ft x + F x), (dt + dF). split; [|split].
+        * generalize (filter_and _ _ Lft LF). apply filter_imp.
+          intros x [E1 E2]. rewrite ev_condsum in *. cbn [flatten_pairs map xcondsum].
+          rewrite (ev_const c x Hc), Hv, Rnz_true by exact Ev. rewrite E1, E2. reflexivity.
+        * apply @is_derive_plus; assumption.
+        * rewrite ev_condsum. cbn [map flatten_pairs fst snd xcondsum].
+          rewrite Hv, Rnz_true by exact Ev. rewrite Vft, VF. reflexivity.
+      + exists F, dF. split; [|split]; [|exact DF|].
+        * generalize LF. apply filter_imp.
+          intros x E2. rewrite ev_condsum in *. cbn [flatten_pairs map xcondsum].
+          rewrite (ev_const c x Hc), Hv, Ev. exact E2.
+        * rewrite ev_condsum. cbn [map flatten_pairs fst snd xcondsum].
+          rewrite Hv, Ev. exact VF.
+  Qed.
+
+  Lemma good_elem keys key entries z sel :
+    mentions w key = false -> ev key en0 = XR (IZR z) ->
+    assoc_Z z keys entries = Some sel -> good sel ->
+    good (Node (HElem keys) (key :: entries)).
+  Proof.
+    intros Hk Hv Hsel Hs. unpack Hs fs ds.
+    apply good_of_struct. exists fs, ds. split; [|split]; [|exact Dfs|].
+    - generalize Lfs. apply filter_imp. intros x E.
+      rewrite ev_elem. cbn [map xelem]. rewrite (ev_const key x Hk), Hv, R2Z_IZR'.
+      rewrite assoc_Z_map, Hsel. cbn [option_map]. rewrite E. reflexivity.
+    - cbn [dnode map]. rewrite ev_elem. cbn [map xelem]. rewrite Hv, R2Z_IZR'.
+      rewrite map_map, assoc_Z_map, Hsel. cbn [option_map]. rewrite Vfs. reflexivity.
+  Qed.
+
+  (* ---------------------------------------------------------------- LogLogit *)
+  Lemma firstn_len_app {A} (l1 l2 : list A) n : List.length l1 = n -> firstn n (l1 ++ l2) = l1.
+  Proof.
+    intros <-. induction l1 as [|a l1 IH]; cbn [List.length firstn app].
+    - destruct l2; reflexivity.
+    - rewrite IH. reflexivity.
+  Qed.
+  Lemma skipn_len_app {A} (l1 l2 : list A) n : List.length l1 = n -> skipn n (l1 ++ l2) = l2.
+  Proof. intros <-. induction l1 as [|a l1 IH]; cbn [List.length skipn app]; auto. Qed.
+
+  Lemma good_logit_den ak avs : forall uk us,
+    List.length us = List.length uk ->
+    (forall k u a v, In (k, u) (combine uk us) -> assoc_Z k ak avs = Some a ->
+                     ev a en0 = XR v -> v <> 0 -> good u) ->
+    forall d, logit_denominator uk (map ev0 us) ak (map ev0 avs) = XR d ->
+    exists (F : R -> R) (dF : R),
+      locally x0 (fun x => logit_denominator uk (map (evx x) us) ak (map ev0 avs) = XR (F x)) /\
+      F x0 = d /\
+      is_derive F x0 dF /\
+      xcondsum (map ev0 (logit_num_kids uk us (map (D w) us) ak avs)) = XR dF /\
+      xcondsum (map ev0 (logit_den_kids uk us ak avs)) = XR d.
+  Proof.
+    induction uk as [|k ks IH]; intros [|u r] Hlen Hg d Hd; try discriminate.
+    - cbn in Hd. injection Hd as <-.
+      exists (fun _ => 0), 0. split; [|split; [|split; [|split]]]; try reflexivity.
+      + apply filter_forall. reflexivity.
+      + apply @is_derive_const.
+    - assert (Hg' : forall k' u' a v, In (k', u') (combine ks r) -> assoc_Z k' ak avs = Some a ->
+                                      ev a en0 = XR v -> v <> 0 -> good u').
+      { intros k' u' a v Hin. apply Hg. right. exact Hin. }
+      assert (Hlen' : List.length r = List.length ks) by (cbn in Hlen; lia).
+      cbn [map logit_denominator logit_num_kids logit_den_kids] in *.
+      rewrite assoc_Z_map in Hd.
+      destruct (assoc_Z k ak avs) as [a|] eqn:Ea; cbn [option_map] in Hd.
+      + destruct (ev a en0) as [v| |] eqn:Eva; try discriminate.
+        destruct (Rnz v) eqn:Ev.
+        * apply Rnz_true_inv in Ev.
+          assert (Hu : good u) by (apply (Hg k u a v); auto; left; reflexivity).
+          unpack Hu fu du. rewrite Efu in Hd.
+          destruct (logit_denominator ks (map ev0 r) ak (map ev0 avs)) as [d'| |] eqn:Ed';
+            cbn [lift1 lift2] in Hd; try discriminate.
+          injection Hd as <-.
+          destruct (IH r Hlen' Hg' d' Ed') as (F & dF & LF & F0 & DF & VN & VD).
+          exists (fun x => exp (fu x) + F x), (exp (fu x0) * du + dF).
+          split; [|split; [|split; [|split]]].
+          -- generalize (filter_and _ _ Lfu LF). apply filter_imp. intros x [E1 E2].
+             rewrite assoc_Z_map, Ea. cbn [option_map]. rewrite Eva, Rnz_true by exact Ev.
+             rewrite E1, E2. reflexivity.
+          -- cbv beta. rewrite F0. reflexivity.
+          -- auto_derive.
+             ++ split; [exists du; exact Dfu|]. split; [exists dF; exact DF|exact I].
+             ++ dun Dfu fu du. dun DF F dF. ring.
+          -- cbn [map xcondsum]. rewrite Eva, Rnz_true by exact Ev. rewrite VN. nf. evs.
+             rewrite Vfu, Efu. reflexivity.
+          -- cbn [map xcondsum]. rewrite Eva, Rnz_true by exact Ev. rewrite VD. nf. evs.
+             rewrite Efu. reflexivity.
+        * destruct (IH r Hlen' Hg' d Hd) as (F & dF & LF & F0 & DF & VN & VD).
+          exists F, dF. split; [|split; [|split; [|split]]]; auto.
+          -- generalize LF. apply filter_imp. intros x E2.
+             rewrite assoc_Z_map, Ea. cbn [option_map]. rewrite Eva, Ev. exact E2.
+          -- cbn [map xcondsum]. rewrite Eva, Ev. exact VN.
+          -- cbn [map xcondsum]. rewrite Eva, Ev. exact VD.
+      + destruct (IH r Hlen' Hg' d Hd) as (F & dF & LF & F0 & DF & VN & VD).
+        exists F, dF. split; [|split; [|split; [|split]]]; auto.
+        generalize LF. apply filter_imp. intros x E2.
+        rewrite assoc_Z_map, Ea. cbn [option_map]. exact E2.
+  Qed.
+
+  Lemma good_loglogit uk ak choice us avs r :
+    mentions w choice = false ->
+    (forall a, In a avs -> mentions w a = false) ->
+    List.length us = List.length uk ->
+    ev (Node (HLogLogit uk ak) (choice :: us ++ avs)) en0 = XR r ->
+    (forall k u a v, In (k, u) (combine uk us) -> assoc_Z k ak avs = Some a ->
+                     ev a en0 = XR v -> v <> 0 -> good u) ->
+    good (Node (HLogLogit uk ak) (choice :: us ++ avs)).
+  Proof.
+    intros Hch Havs Hlen Hr Hg.
+    rewrite ev_loglogit in Hr. cbn [map xloglogit] in Hr.
+    destruct (ev choice en0) as [c| |] eqn:Ec; try discriminate.
+    rewrite map_app in Hr.
+    rewrite firstn_len_app, skipn_len_app in Hr by (rewrite map_length; exact Hlen).
+    destruct (negb (List.length (map ev0 avs) =? List.length ak)%nat) eqn:Eneg; try discriminate.
+    destruct (R2Z c) as [z|] eqn:Ez; try discriminate.
+    destruct (assoc_Z z ak (map ev0 avs)) as [[a| |]|] eqn:Eaz; try discriminate.
+    destruct (assoc_Z z uk (map ev0 us)) as [vc|] eqn:Euz; try discriminate.
+    destruct (Rnz a) eqn:Ea; try discriminate.
+    destruct vc as [v| |]; try discriminate.
+    destruct (logit_denominator uk (map ev0 us) ak (map ev0 avs)) as [d| |] eqn:Ed; try discriminate.
+    destruct (Rltb' 0 d) eqn:Epos; try discriminate.
+    apply Rltb'_true_inv in Epos. apply Rnz_true_inv in Ea.
+    (* the chosen alternative *)
+    pose proof Euz as Euz'. rewrite assoc_Z_map in Euz'.
+    destruct (assoc_Z z uk us) as [uc|] eqn:Euc; cbn [option_map] in Euz'; try discriminate.
+    injection Euz' as Evc.
+    pose proof Eaz as Eaz'. rewrite assoc_Z_map in Eaz'.
+    destruct (assoc_Z z ak avs) as [ac|] eqn:Eac; cbn [option_map] in Eaz'; try discriminate.
+    injection Eaz' as Eva.
+    assert (Huc : good uc) by (apply (Hg z uc ac a); auto; apply assoc_Z_combine; exact Euc).
+    unpack Huc fc dc.
+    destruct (good_logit_den ak avs uk us Hlen Hg d Ed) as (F & dF & LF & F0 & DF & VN & VD).
+    assert (Hpos : 0 < F x0) by (rewrite F0; exact Epos).
+    assert (Havs' : forall x, map (evx x) avs = map ev0 avs).
+    { intros x. apply map_ext_in. intros a' Hin. apply ev_const, Havs, Hin. }
+    apply good_of_struct. exists (fun x => fc x - ln (F x)), (dc - dF / F x0). split; [|split].
+    - generalize (filter_and _ _ (filter_and _ _ Lfc LF) (locally_pos _ _ _ DF Hpos)).
+      apply filter_imp. intros x [[E1 E2] E3].
+      rewrite ev_loglogit. cbn [map xloglogit]. rewrite (ev_const choice x Hch), Ec.
+      rewrite map_app.
+      rewrite firstn_len_app, skipn_len_app by (rewrite map_length; exact Hlen).
+      rewrite Havs', Eneg, Ez, Eaz.
+      rewrite assoc_Z_map, Euc. cbn [option_map]. rewrite Rnz_true by exact Ea.
+      rewrite E1, E2, Rltb'_true by exact E3. reflexivity.
+    - auto_derive.
+      + split; [exists dc; exact Dfc|]. split; [exists dF; exact DF|]. split; [exact Hpos|exact I].
+      + dun Dfc fc dc. dun DF F dF. field. lra.
+    - cbn [dnode dloglogit map]. rewrite map_app.
+      rewrite !firstn_len_app, skipn_len_app by (rewrite ?map_length; exact Hlen).
+      nf. evs. rewrite ev_elem, !ev_condsum, VN, VD.
+      cbn [map xelem]. rewrite Ec, Ez, map_map, assoc_Z_map, Euc. cbn [option_map].
+      rewrite Vfc. cbn [xbin lift2]. rewrite Rnz_true by lra. rewrite F0. reflexivity.
+  Qed.
+
+  (* ---------------------------------------------------------------- the induction *)
+  Lemma Forall_pairs_flatten (P : expr -> Prop) ps :
+    Forall P (flatten_pairs ps) <-> Forall (fun p => P (fst p) /\ P (snd p)) ps.
+  Proof.
+    induction ps as [|[a b] ps IH]; cbn [flatten_pairs]; split; intros H; try constructor.
+    - inversion H as [|? ? Ha H']; subst. inversion H' as [|? ? Hb H'']; subst. cbn [fst snd]. auto.
+    - inversion H as [|? ? Ha H']; subst. inversion H' as [|? ? Hb H'']; subst. apply IH. exact H''.
+    - inversion H as [|? ? [Ha Hb] H']; subst. exact Ha.
+    - inversion H as [|? ? [Ha Hb] H']; subst. constructor; [exact Hb | apply IH; exact H'].
+  Qed.
+
+  Theorem D_good : forall e, dom Phi ws en0 e -> good e.
+  Proof.
+    induction e as [h kids IH] using expr_ind_strong'. intros Hdom.
+    rewrite Forall_forall in IH.
+    inversion Hdom; subst.
+    - (* parameter-free *)
+      match goal with H : pfree _ _ = true, H' : evalX _ _ _ = XR ?r |- _ =>
+        apply (good_const _ r); [exact (pfree_nomention ws w _ Hw H) | exact H'] end.
+    - eapply good_beta; eassumption.
+    - eapply good_var; eassumption.
+    - eapply good_rv; eassumption.
+    - apply good_plus; apply IH; cbn [In]; auto.
+    - apply good_minus; apply IH; cbn [In]; auto.
+    - apply good_times; apply IH; cbn [In]; auto.
+    - eapply good_divide; try eassumption; apply IH; cbn [In]; auto.
+    - eapply good_power; try eassumption; apply IH; cbn [In]; auto.
+    - apply good_uminus; apply IH; cbn [In]; auto.
+    - apply good_exp; apply IH; cbn [In]; auto.
+    - eapply good_log; try eassumption; apply IH; cbn [In]; auto.
+    - apply good_sin; apply IH; cbn [In]; auto.
+    - apply good_cos; apply IH; cbn [In]; auto.
+    - apply good_normalcdf; apply IH; cbn [In]; auto.
+    - eapply good_powc; try eassumption; apply IH; cbn [In]; auto.
+    - (* MultSum *)
+      apply good_multsum. rewrite Forall_forall. intros k Hin. apply IH; [exact Hin|].
+      match goal with H : Forall _ kids |- _ => rewrite Forall_forall in H; apply H; exact Hin end.
+    - (* LinUtil *)
+      apply good_linutil. apply Forall_pairs_flatten.
+      match goal with H : Forall _ ps |- _ => apply (Forall_pairs_flatten (dom Phi ws en0)) in H;
+        rewrite Forall_forall in H |- *; intros k Hin; apply IH; [exact Hin | apply H; exact Hin] end.
+    - (* CondSum *)
+      apply good_condsum.
+      match goal with H : Forall _ ps |- _ => rename H into Hps end.
+      assert (Hin : forall p, In p ps -> In (snd p) (flatten_pairs ps)).
+      { clear. induction ps as [|[a b] ps IHp]; cbn [In flatten_pairs]; [tauto|].
+        intros p [<-|Hp]; cbn [snd]; [auto | right; right; apply IHp, Hp]. }
+      rewrite Forall_forall in Hps |- *. intros p Hp.
+      destruct (Hps p Hp) as (Hc & v & Hv & Ht).
+      split; [exact (pfree_nomention ws w _ Hw Hc)|].
+      exists v. split; [exact Hv|]. intros Hnz. apply IH; [apply Hin, Hp | apply Ht, Hnz].
+    - (* Elem *)
+      match goal with H : assoc_Z _ _ _ = Some ?s |- _ =>
+        eapply good_elem; [eapply pfree_nomention; eassumption | eassumption | exact H |] end.
+      apply IH; [|assumption]. right. eapply assoc_Z_In; eassumption.
+    - (* LogLogit *)
+      match goal with H : forallb (pfree ws) avs = true |- _ => rename H into Havs end.
+      rewrite forallb_forall in Havs.
+      eapply good_loglogit; try eassumption.
+      + eapply pfree_nomention; eassumption.
+      + intros a Ha. eapply pfree_nomention; [exact Hw | apply Havs, Ha].
+      + intros k u a v Hin Ha Hv Hnz. apply IH.
+        * right. apply in_or_app. left. exact (in_combine_r _ _ _ _ Hin).
+        * match goal with H : forall k u a v, In (k, u) _ -> _ |- _ => eapply H; eassumption end.
+  Qed.
+
+  (* T02a *)
+  Theorem D_correct e :
+    dom Phi ws en0 e ->
+    is_derive (fun x => valR (ev e (upd en w x))) x0 (valR (ev (D w e) en0)).
+  Proof.
+    intros Hd. destruct (D_good e Hd) as (f & d & L & Df & V).
+    rewrite V. cbn [valR].
+    apply (is_derive_ext_loc f); [|exact Df].
+    generalize L. apply filter_imp. intros x E. rewrite E. reflexivity.
+  Qed.
+
+  Theorem D_value e : dom Phi ws en0 e -> exists d, ev (D w e) en0 = XR d.
+  Proof. intros Hd. destruct (D_good e Hd) as (f & d & _ & _ & V). exists d. exact V. Qed.
+
+  Theorem dom_value e : dom Phi ws en0 e -> exists r, ev e en0 = XR r.
+  Proof. intros Hd. exact (good_val e (D_good e Hd)). Qed.
+
+  (* ---------------------------------------------------------------- the derivative tree stays in the fragment *)
+  Lemma mentions_num w' d : mentions w' (Node (HNum d) []) = false.
+  Proof. destruct w'; reflexivity. Qed.
+
+  Lemma pfree_num d : pfree ws (Node (HNum d) []) = true.
+  Proof. unfold pfree. apply forallb_forall. intros w' _. rewrite mentions_num. reflexivity. Qed.
+
+  Lemma dom_num d : dom Phi ws en0 (Node (HNum d) []).
+  Proof. apply (dom_pfree _ _ _ _ (D2R d)); [apply pfree_num | reflexivity]. Qed.
+
+  Lemma dom_zero : dom Phi ws en0 zero.  Proof. apply dom_num. Qed.
+  Lemma dom_one : dom Phi ws en0 one.  Proof. apply dom_num. Qed.
+
+  Fixpoint logit_den_pairs (uk : list Z) (us : list expr) (ak : list Z) (avs : list expr)
+    : list (expr * expr) :=
+    match uk, us with
+    | k :: ks, u :: r =>
+        match assoc_Z k ak avs with
+        | Some a => (a, EUn Exp u) :: logit_den_pairs ks r ak avs
+        | None => logit_den_pairs ks r ak avs
+        end
+    | _, _ => []
+    end.
+
+  Fixpoint logit_num_pairs (uk : list Z) (us dus : list expr) (ak : list Z) (avs : list expr)
+    : list (expr * expr) :=
+    match uk, us, dus with
+    | k :: ks, u :: r, du :: dr =>
+        match assoc_Z k ak avs with
+        | Some a => (a, EBin Times (EUn Exp u) du) :: logit_num_pairs ks r dr ak avs
+        | None => logit_num_pairs ks r dr ak avs
+        end
+    | _, _, _ => []
+    end.
+
+  Lemma logit_den_kids_pairs ak avs : forall uk us,
+    logit_den_kids uk us ak avs = flatten_pairs (logit_den_pairs uk us ak avs).
+  Proof.
+    induction uk as [|k ks IH]; intros [|u r]; try reflexivity.
+    cbn [logit_den_kids logit_den_pairs]. destruct (assoc_Z k ak avs); cbn [flatten_pairs]; rewrite IH; reflexivity.
+  Qed.
+
+  Lemma logit_num_kids_pairs ak avs : forall uk us dus,
+    logit_num_kids uk us dus ak avs = flatten_pairs (logit_num_pairs uk us dus ak avs).
+  Proof.
+    induction uk as [|k ks IH]; intros [|u r] [|du dr]; try reflexivity.
+    cbn [logit_num_kids logit_num_pairs]. destruct (assoc_Z k ak avs); cbn [flatten_pairs]; rewrite IH; reflexivity.
+  Qed.
+
+  Definition cond_ok (p : expr * expr) : Prop :=
+    pfree ws (fst p) = true /\
+    exists v, ev (fst p) en0 = XR v /\ (v <> 0 -> dom Phi ws en0 (snd p)).
+
+  Lemma logit_pairs_dom ak avs :
+    (forall a, In a avs -> pfree ws a = true) ->
+    forall uk us,
+    List.length us = List.length uk ->
+    (forall k u a v, In (k, u) (combine uk us) -> assoc_Z k ak avs = Some a ->
+                     ev a en0 = XR v -> v <> 0 ->
+                     dom Phi ws en0 u /\ dom Phi ws en0 (D w u)) ->
+    forall d, logit_denominator uk (map ev0 us) ak (map ev0 avs) = XR d ->
+    Forall cond_ok (logit_num_pairs uk us (map (D w) us) ak avs) /\
+    Forall cond_ok (logit_den_pairs uk us ak avs).
+  Proof.
+    intros Hav. induction uk as [|k ks IH]; intros [|u r] Hlen Hg d Hd; try discriminate.
+    - split; constructor.
+    - assert (Hg' : forall k' u' a v, In (k', u') (combine ks r) -> assoc_Z k' ak avs = Some a ->
+                                      ev a en0 = XR v -> v <> 0 ->
+                                      dom Phi ws en0 u' /\ dom Phi ws en0 (D w u')).
+      { intros k' u' a v Hin. apply Hg. right. exact Hin. }
+      assert (Hlen' : List.length r = List.length ks) by (cbn in Hlen; lia).
+      cbn [map logit_denominator logit_num_pairs logit_den_pairs] in *.
+      rewrite assoc_Z_map in Hd.
+      destruct (assoc_Z k ak avs) as [a|] eqn:Ea; cbn [option_map] in Hd.
+      + destruct (ev a en0) as [v| |] eqn:Eva; try discriminate.
+        assert (Hpa : pfree ws a = true) by (apply Hav; eapply assoc_Z_In; exact Ea).
+        assert (Htail : exists d', logit_denominator ks (map ev0 r) ak (map ev0 avs) = XR d').
+        { destruct (Rnz v); [|eauto].
+          destruct (logit_denominator ks (map ev0 r) ak (map ev0 avs)) as [d'| |]; [eauto | |];
+            destruct (lift1 exp (ev u en0)); discriminate. }
+        destruct Htail as (d' & Ed').
+        destruct (IH r Hlen' Hg' d' Ed') as [IN ID].
+        split; constructor; auto.
+        * split; [exact Hpa|]. exists v. split; [exact Eva|]. intros Hnz.
+          destruct (Hg k u a v) as [Hu Hdu]; auto; [left; reflexivity|].
+          apply dom_times; [apply dom_exp; exact Hu | exact Hdu].
+        * split; [exact Hpa|]. exists v. split; [exact Eva|]. intros Hnz.
+          destruct (Hg k u a v) as [Hu Hdu]; auto; [left; reflexivity|].
+          apply dom_exp; exact Hu.
+      + exact (IH r Hlen' Hg' d Hd).
+  Qed.
+
+  Lemma loglogit_inv uk ak choice us avs r :
+    List.length us = List.length uk ->
+    ev (Node (HLogLogit uk ak) (choice :: us ++ avs)) en0 = XR r ->
+    exists z a v d uc ac,
+      ev choice en0 = XR (IZR z) /\ assoc_Z z uk us = Some uc /\ ev uc en0 = XR v /\
+      assoc_Z z ak avs = Some ac /\ ev ac en0 = XR a /\ a <> 0 /\
+      logit_denominator uk (map ev0 us) ak (map ev0 avs) = XR d /\ 0 < d.
+  Proof.
+    intros Hlen Hr.
+    rewrite ev_loglogit in Hr. cbn [map xloglogit] in Hr.
+    destruct (ev choice en0) as [c| |] eqn:Ec; try discriminate.
+    rewrite map_app in Hr.
+    rewrite firstn_len_app, skipn_len_app in Hr by (rewrite map_length; exact Hlen).
+    destruct (negb (List.length (map ev0 avs) =? List.length ak)%nat) eqn:Eneg; try discriminate.
+    destruct (R2Z c) as [z|] eqn:Ez; try discriminate.
+    destruct (assoc_Z z ak (map ev0 avs)) as [[a| |]|] eqn:Eaz; try discriminate.
+    destruct (assoc_Z z uk (map ev0 us)) as [vc|] eqn:Euz; try discriminate.
+    destruct (Rnz a) eqn:Ea; try discriminate.
+    destruct vc as [v| |]; try discriminate.
+    destruct (logit_denominator uk (map ev0 us) ak (map ev0 avs)) as [d| |] eqn:Ed; try discriminate.
+    destruct (Rltb' 0 d) eqn:Epos; try discriminate.
+    apply Rltb'_true_inv in Epos. apply Rnz_true_inv in Ea.
+    rewrite assoc_Z_map in Euz.
+    destruct (assoc_Z z uk us) as [uc|] eqn:Euc; cbn [option_map] in Euz; try discriminate.
+    injection Euz as Evc.
+    rewrite assoc_Z_map in Eaz.
+    destruct (assoc_Z z ak avs) as [ac|] eqn:Eac; cbn [option_map] in Eaz; try discriminate.
+    injection Eaz as Eva.
+    apply R2Z_Some in Ez. subst c.
+    exists z, a, v, d, uc, ac. repeat split; auto.
+  Qed.
+
+  Theorem dom_D : forall e, dom Phi ws en0 e -> dom Phi ws en0 (D w e).
+  Proof.
+    induction e as [h kids IH] using expr_ind_strong'. intros Hdom.
+    rewrite Forall_forall in IH.
+    destruct (mentions w (Node h kids)) eqn:Em; [|rewrite D_nomention by exact Em; apply dom_zero].
+    rewrite D_eq, Em.
+    inversion Hdom; subst.
+    - (* parameter-free: impossible *)
+      match goal with H : pfree _ _ = true |- _ =>
+        rewrite (pfree_nomention ws w _ Hw H) in Em; discriminate end.
+    - cbn [dnode]. destruct (is_wrt w (HBeta n f)); [apply dom_one | apply dom_zero].
+    - cbn [dnode]. destruct (is_wrt w (HVar n)); [apply dom_one | apply dom_zero].
+    - cbn [dnode]. destruct (is_wrt w (HRV n)); [apply dom_one | apply dom_zero].
+    - (* plus *) cbn [dnode map]. apply dom_plus; apply IH; cbn [In]; auto.
+    - cbn [dnode map]. apply dom_minus; apply IH; cbn [In]; auto.
+    - (* times *)
+      cbn [dnode map]. apply dom_plus; apply dom_times; auto; apply IH; cbn [In]; auto.
+    - (* divide *)
+      cbn [dnode map]. apply (dom_divide _ _ _ _ _ (v * v)).
+      + apply dom_minus; apply dom_times; auto; apply IH; cbn [In]; auto.
+      + apply dom_times; assumption.
+      + nf. evs. match goal with H : evalX _ y _ = XR v |- _ => rewrite H end. reflexivity.
+      + apply Rmult_integral_contrapositive; split; assumption.
+    - (* power *)
+      cbn [dnode map]. apply dom_times.
+      + eapply dom_power; eassumption.
+      + apply dom_plus.
+        * apply dom_times; [apply IH; cbn [In]; auto | eapply dom_log; eassumption].
+        * eapply (dom_divide _ _ _ _ _ v); auto; [|lra].
+          apply dom_times; [assumption | apply IH; cbn [In]; auto].
+    - cbn [dnode map]. apply dom_uminus; apply IH; cbn [In]; auto.
+    - cbn [dnode map]. apply dom_times; [apply dom_exp; assumption | apply IH; cbn [In]; auto].
+    - cbn [dnode map]. apply (dom_divide _ _ _ _ _ v); auto; [apply IH; cbn [In]; auto | lra].
+    - cbn [dnode map]. apply dom_times; [apply dom_cos; assumption | apply IH; cbn [In]; auto].
+    - cbn [dnode map]. apply dom_uminus, dom_times; [apply dom_sin; assumption | apply IH; cbn [In]; auto].
+    - (* normal cdf *)
+      cbn [dnode map]. apply dom_times; [|apply IH; cbn [In]; auto].
+      unfold normal_density. apply dom_times; [apply dom_num|].
+      apply dom_exp, dom_uminus. apply (dom_divide _ _ _ _ _ 2).
+      + apply dom_times; assumption.
+      + apply dom_num.
+      + unfold two, ENumZ. apply ev_numZ.
+      + lra.
+    - (* powc *)
+      cbn [dnode map].
+      assert (Hgen : dom Phi ws en0
+                (EBin Times (EBin Times (Node (HNum c) []) (EPowC x (dy_pred c))) (D w x))
+              \/ dyadic_is_int c = Some 0%Z).
+      { match goal with H : powc_ok c v |- _ => rename H into Hok end. unfold powc_ok in Hok.
+        destruct (dyadic_is_int c) as [n|] eqn:Ec.
+        - destruct (Z.eq_dec n 0) as [->|Hn0]; [right; reflexivity|]. left.
+          apply dom_times; [|apply IH; cbn [In]; auto].
+          apply dom_times; [apply dom_num|].
+          eapply dom_powc; [eassumption | eassumption |].
+          unfold powc_ok. rewrite dy_pred_int, Ec. cbn [option_map].
+          destruct Hok; [left; lia | right; assumption].
+        - left. apply dom_times; [|apply IH; cbn [In]; auto].
+          apply dom_times; [apply dom_num|].
+          eapply dom_powc; [eassumption | eassumption |].
+          unfold powc_ok. rewrite dy_pred_int, Ec. cbn [option_map]. exact Hok. }
+      destruct Hgen as [Hgen|E0]; [|rewrite E0; apply dom_zero].
+      destruct (dyadic_is_int c) as [[|p|p]|]; [apply dom_zero | exact Hgen ..].
+    - (* MultSum *)
+      cbn [dnode]. apply dom_multsum. rewrite Forall_forall. intros k Hin.
+      apply in_map_iff in Hin. destruct Hin as (k0 & <- & Hin0). apply IH; [exact Hin0|].
+      match goal with H : Forall _ kids |- _ => rewrite Forall_forall in H; apply H; exact Hin0 end.
+    - (* LinUtil *)
+      cbn [dnode]. rewrite dlin_flatten. apply dom_multsum.
+      match goal with H : Forall _ ps |- _ => rename H into Hps end.
+      pose proof (proj2 (Forall_pairs_flatten (dom Phi ws en0) ps) Hps) as Hfl.
+      rewrite Forall_forall in Hps, Hfl |- *. intros k Hin.
+      apply in_map_iff in Hin. destruct Hin as ([b v] & <- & Hin0). cbn [fst snd].
+      destruct (Hps _ Hin0) as [Hb Hv]. cbn [fst snd] in Hb, Hv.
+      assert (Hinb : In b (flatten_pairs ps) /\ In v (flatten_pairs ps)).
+      { clear - Hin0. induction ps as [|[a c] ps IHp]; cbn [In flatten_pairs] in *; [tauto|].
+        destruct Hin0 as [E|Hp]; [injection E as -> ->; auto | destruct (IHp Hp); auto]. }
+      apply dom_plus; apply dom_times; auto; apply IH; tauto.
+    - (* CondSum *)
+      cbn [dnode]. rewrite dcond_flatten.
+      apply (dom_condsum _ _ _ (map (fun p => (fst p, D w (snd p))) ps)).
+      match goal with H : Forall _ ps |- _ => rename H into Hps end.
+      assert (Hin : forall p, In p ps -> In (snd p) (flatten_pairs ps)).
+      { clear. induction ps as [|[a b] ps IHp]; cbn [In flatten_pairs]; [tauto|].
+        intros p [<-|Hp]; cbn [snd]; [auto | right; right; apply IHp, Hp]. }
+      rewrite Forall_forall in Hps |- *. intros p Hp.
+      apply in_map_iff in Hp. destruct Hp as (p0 & <- & Hp0). cbn [fst snd].
+      destruct (Hps p0 Hp0) as (Hc & v & Hv & Ht).
+      split; [exact Hc|]. exists v. split; [exact Hv|]. intros Hnz.
+      apply IH; [apply Hin, Hp0 | apply Ht, Hnz].
+    - (* Elem *)
+      cbn [dnode map]. apply (dom_elem _ _ _ keys key (map (D w) entries) z (D w sel)); auto.
+      + rewrite assoc_Z_map. match goal with H : assoc_Z _ _ _ = Some _ |- _ => rewrite H end. reflexivity.
+      + apply IH; [|assumption]. right. eapply assoc_Z_In; eassumption.
+    - (* LogLogit *)
+      match goal with H : forallb (pfree ws) avs = true |- _ => rename H into Havs end.
+      match goal with H : List.length us = _ |- _ => rename H into Hlen end.
+      match goal with H : evalX _ _ _ = XR r |- _ => rename H into Hr end.
+      match goal with H : forall k u a v, In (k, u) _ -> _ |- _ => rename H into Hdu end.
+      rewrite forallb_forall in Havs.
+      destruct (loglogit_inv _ _ _ _ _ _ Hlen Hr)
+        as (z & a & v & d & uc & ac & Ec & Euc & Evc & Eac & Eva & Hnz & Ed & Hpos).
+      assert (Hg : forall k u a v, In (k, u) (combine uk us) -> assoc_Z k ak avs = Some a ->
+                     ev a en0 = XR v -> v <> 0 -> dom Phi ws en0 u /\ dom Phi ws en0 (D w u)).
+      { intros k u a' v' Hin Ha Hv Hn. assert (Hu : dom Phi ws en0 u) by (eapply Hdu; eassumption).
+        split; [exact Hu|]. apply IH; [|exact Hu].
+        right. apply in_or_app. left. exact (in_combine_r _ _ _ _ Hin). }
+      destruct (logit_pairs_dom ak avs Havs uk us Hlen Hg d Ed) as [HN HD].
+      assert (Hgood : forall k u a v, In (k, u) (combine uk us) -> assoc_Z k ak avs = Some a ->
+                     ev a en0 = XR v -> v <> 0 -> good u).
+      { intros k u a' v' Hin Ha Hv Hn. apply D_good. eapply Hdu; eassumption. }
+      destruct (good_logit_den ak avs uk us Hlen Hgood d Ed) as (F & dF & _ & _ & _ & VN & VD).
+      cbn [dnode dloglogit map]. rewrite map_app.
+      rewrite !firstn_len_app, skipn_len_app by (rewrite ?map_length; exact Hlen).
+      apply dom_minus.
+      + eapply (dom_elem _ _ _ uk choice (map (D w) us) z (D w uc)); auto.
+        * rewrite assoc_Z_map, Euc. reflexivity.
+        * apply (Hg z uc ac a); auto. apply assoc_Z_combine. exact Euc.
+      + apply (dom_divide _ _ _ _ _ d).
+        * rewrite logit_num_kids_pairs. apply dom_condsum. exact HN.
+        * rewrite logit_den_kids_pairs. apply dom_condsum. exact HD.
+        * rewrite ev_condsum. exact VD.
+        * lra.
+  Qed.
+
+  (* ---------------------------------------------------------------- [dom] is an open condition *)
+  Notation domx x := (dom Phi ws (upd en w x)).
+
+  Lemma locally_Forall {A} (P : R -> A -> Prop) (l : list A) :
+    (forall a, In a l -> locally x0 (fun x => P x a)) -> locally x0 (fun x => Forall (P x) l).
+  Proof.
+    induction l as [|a l IH]; intros H.
+    - apply filter_forall. intros x. constructor.
+    - assert (Ha : locally x0 (fun x => P x a)) by (apply H; left; reflexivity).
+      assert (Hl : locally x0 (fun x => Forall (P x) l)) by (apply IH; intros; apply H; right; assumption).
+      generalize (filter_and _ _ Ha Hl). apply filter_imp. intros x [H1 H2]. constructor; assumption.
+  Qed.
+
+  Lemma lookup_upd_beta n r : e_beta en0 n = Some r -> forall x, exists r', e_beta (upd en w x) n = Some r'.
+  Proof.
+    destruct w as [b|b|b]; cbn [upd e_beta]; eauto.
+    unfold set_name. destruct (String.eqb n b); eauto.
+  Qed.
+  Lemma lookup_upd_var n r : e_var en0 n = Some r -> forall x, exists r', e_var (upd en w x) n = Some r'.
+  Proof.
+    destruct w as [b|b|b]; cbn [upd e_var]; eauto.
+    unfold set_name. destruct (String.eqb n b); eauto.
+  Qed.
+  Lemma lookup_upd_rv n r : e_rv en0 n = Some r -> forall x, exists r', e_rv (upd en w x) n = Some r'.
+  Proof.
+    destruct w as [b|b|b]; cbn [upd e_rv]; eauto.
+    unfold set_name. destruct (String.eqb n b); eauto.
+  Qed.
+
+  Lemma pfree_const e x : pfree ws e = true -> ev e (upd en w x) = ev e en0.
+  Proof. intros H. apply ev_const. exact (pfree_nomention ws w _ Hw H). Qed.
+
+  (* value of a [dom] sub-tree near x0: a function continuous at x0 *)
+  Lemma dom_local e : dom Phi ws en0 e ->
+    exists (f : R -> R) (d : R), locally x0 (fun x => ev e (upd en w x) = XR (f x)) /\
+                                 is_derive f x0 d /\ ev e en0 = XR (f x0).
+  Proof.
+    intros H. destruct (D_good e H) as (f & d & L & Df & _). exists f, d.
+    split; [exact L|]. split; [exact Df|]. exact (locally_singleton _ _ L).
+  Qed.
+
+  Theorem dom_open : forall e, dom Phi ws en0 e -> locally x0 (fun x => domx x e).
+  Proof.
+    induction e as [h kids IH] using expr_ind_strong'. intros Hdom.
+    rewrite Forall_forall in IH.
+    pose proof (dom_local _ Hdom) as (fe & de & Le & Dfe & Ee).
+    inversion Hdom; subst.
+    - (* parameter-free *)
+      apply filter_forall. intros x.
+      match goal with H : pfree _ _ = true, H' : evalX _ _ _ = XR ?r |- _ =>
+        apply (dom_pfree _ _ _ _ r); [exact H | rewrite pfree_const by exact H; exact H'] end.
+    - apply filter_forall. intros x.
+      match goal with H : e_beta _ _ = Some _ |- _ => destruct (lookup_upd_beta _ _ H x) as (r' & Hr') end.
+      eapply dom_beta; exact Hr'.
+    - apply filter_forall. intros x.
+      match goal with H : e_var _ _ = Some _ |- _ => destruct (lookup_upd_var _ _ H x) as (r' & Hr') end.
+      eapply dom_var; exact Hr'.
+    - apply filter_forall. intros x.
+      match goal with H : e_rv _ _ = Some _ |- _ => destruct (lookup_upd_rv _ _ H x) as (r' & Hr') end.
+      eapply dom_rv; exact Hr'.
+    - (* plus *)
+      assert (Hx : locally x0 (fun t => domx t x)) by (apply IH; cbn [In]; auto).
+      assert (Hy : locally x0 (fun t => domx t y)) by (apply IH; cbn [In]; auto).
+      generalize (filter_and _ _ Hx Hy). apply filter_imp. intros t [H1 H2]. apply dom_plus; assumption.
+    - assert (Hx : locally x0 (fun t => domx t x)) by (apply IH; cbn [In]; auto).
+      assert (Hy : locally x0 (fun t => domx t y)) by (apply IH; cbn [In]; auto).
+      generalize (filter_and _ _ Hx Hy). apply filter_imp. intros t [H1 H2]. apply dom_minus; assumption.
+    - assert (Hx : locally x0 (fun t => domx t x)) by (apply IH; cbn [In]; auto).
+      assert (Hy : locally x0 (fun t => domx t y)) by (apply IH; cbn [In]; auto).
+      generalize (filter_and _ _ Hx Hy). apply filter_imp. intros t [H1 H2]. apply dom_times; assumption.
+    - (* divide *)
+      assert (Hx : locally x0 (fun t => domx t x)) by (apply IH; cbn [In]; auto).
+      assert (Hy : locally x0 (fun t => domx t y)) by (apply IH; cbn [In]; auto).
+      match goal with H : dom Phi ws en0 y |- _ => destruct (dom_local _ H) as (fy & dy & Ly & Dfy & Ey) end.
+      assert (Hnz : fy x0 <> 0) by congruence.
+      generalize (filter_and _ _ (filter_and _ _ Hx Hy) (filter_and _ _ Ly (locally_neq0 _ _ _ Dfy Hnz))).
+      apply filter_imp. intros t [[H1 H2] [H3 H4]]. eapply dom_divide; eassumption.
+    - (* power *)
+      assert (Hx : locally x0 (fun t => domx t x)) by (apply IH; cbn [In]; auto).
+      assert (Hy : locally x0 (fun t => domx t y)) by (apply IH; cbn [In]; auto).
+      match goal with H : dom Phi ws en0 x |- _ => destruct (dom_local _ H) as (fx & dx & Lx & Dfx & Ex) end.
+      assert (Hpos : 0 < fx x0) by (replace (fx x0) with v by congruence; assumption).
+      generalize (filter_and _ _ (filter_and _ _ Hx Hy) (filter_and _ _ Lx (locally_pos _ _ _ Dfx Hpos))).
+      apply filter_imp. intros t [[H1 H2] [H3 H4]]. eapply dom_power; eassumption.
+    - assert (Hx : locally x0 (fun t => domx t x)) by (apply IH; cbn [In]; auto).
+      generalize Hx. apply filter_imp. intros t H1. apply dom_uminus; assumption.
+    - assert (Hx : locally x0 (fun t => domx t x)) by (apply IH; cbn [In]; auto).
+      generalize Hx. apply filter_imp. intros t H1. apply dom_exp; assumption.
+    - (* log *)
+      assert (Hx : locally x0 (fun t => domx t x)) by (apply IH; cbn [In]; auto).
+      match goal with H : dom Phi ws en0 x |- _ => destruct (dom_local _ H) as (fx & dx & Lx & Dfx & Ex) end.
+      assert (Hpos : 0 < fx x0) by (replace (fx x0) with v by congruence; assumption).
+      generalize (filter_and _ _ Hx (filter_and _ _ Lx (locally_pos _ _ _ Dfx Hpos))).
+      apply filter_imp. intros t [H1 [H3 H4]]. eapply dom_log; eassumption.
+    - assert (Hx : locally x0 (fun t => domx t x)) by (apply IH; cbn [In]; auto).
+      generalize Hx. apply filter_imp. intros t H1. apply dom_sin; assumption.
+    - assert (Hx : locally x0 (fun t => domx t x)) by (apply IH; cbn [In]; auto).
+      generalize Hx. apply filter_imp. intros t H1. apply dom_cos; assumption.
+    - assert (Hx : locally x0 (fun t => domx t x)) by (apply IH; cbn [In]; auto).
+      generalize Hx. apply filter_imp. intros t H1. apply dom_normalcdf; assumption.
+    - (* powc *)
+      assert (Hx : locally x0 (fun t => domx t x)) by (apply IH; cbn [In]; auto).
+      match goal with H : dom Phi ws en0 x |- _ => destruct (dom_local _ H) as (fx & dx & Lx & Dfx & Ex) end.
+      assert (Ev : fx x0 = v) by congruence.
+      match goal with H : powc_ok c v |- _ => rename H into Hok end.
+      assert (Hok' : locally x0 (fun t => powc_ok c (fx t))).
+      { unfold powc_ok in *. destruct (dyadic_is_int c) as [n|].
+        - destruct Hok as [Hn|Hnz].
+          + apply filter_forall. intros t. left. exact Hn.
+          + rewrite <- Ev in Hnz. generalize (locally_neq0 _ _ _ Dfx Hnz). apply filter_imp. intros t Ht. right. exact Ht.
+        - rewrite <- Ev in Hok. exact (locally_pos _ _ _ Dfx Hok). }
+      generalize (filter_and _ _ Hx (filter_and _ _ Lx Hok')).
+      apply filter_imp. intros t [H1 [H3 H4]]. eapply dom_powc; eassumption.
+    - (* MultSum *)
+      match goal with H : Forall _ kids |- _ => rename H into Hk; rewrite Forall_forall in Hk end.
+      generalize (locally_Forall (fun t k => domx t k) kids (fun k Hin => IH k Hin (Hk k Hin))).
+      apply filter_imp. intros t Ht. apply dom_multsum. exact Ht.
+    - (* LinUtil *)
+      match goal with H : Forall _ ps |- _ => rename H into Hps end.
+      pose proof (proj2 (Forall_pairs_flatten (dom Phi ws en0) ps) Hps) as Hfl.
+      rewrite Forall_forall in Hfl.
+      generalize (locally_Forall (fun t k => domx t k) (flatten_pairs ps) (fun k Hin => IH k Hin (Hfl k Hin))).
+      apply filter_imp. intros t Ht. apply dom_linutil.
+      apply (Forall_pairs_flatten (dom Phi ws (upd en w t))). exact Ht.
+    - (* CondSum *)
+      match goal with H : Forall _ ps |- _ => rename H into Hps; rewrite Forall_forall in Hps end.
+      assert (Hin : forall p, In p ps -> In (snd p) (flatten_pairs ps)).
+      { clear. induction ps as [|[a b] ps IHp]; cbn [In flatten_pairs]; [tauto|].
+        intros p [<-|Hp]; cbn [snd]; [auto | right; right; apply IHp, Hp]. }
+      assert (HP : forall p, In p ps -> locally x0 (fun t =>
+                   pfree ws (fst p) = true /\
+                   exists v, ev (fst p) (upd en w t) = XR v /\ (v <> 0 -> domx t (snd p)))).
+      { intros p Hp. destruct (Hps p Hp) as (Hc & v & Hv & Ht).
+        destruct (Req_EM_T v 0) as [Hz|Hnz].
+        - apply filter_forall. intros t. split; [exact Hc|]. exists v.
+          split; [rewrite pfree_const by exact Hc; exact Hv | intros; contradiction].
+        - generalize (IH (snd p) (Hin p Hp) (Ht Hnz)). apply filter_imp. intros t Hd.
+          split; [exact Hc|]. exists v. split; [rewrite pfree_const by exact Hc; exact Hv | intros _; exact Hd]. }
+      generalize (locally_Forall _ ps HP). apply filter_imp. intros t Ht. apply dom_condsum. exact Ht.
+    - (* Elem *)
+      assert (Hs : locally x0 (fun t => domx t sel)).
+      { apply IH; [|assumption]. right. eapply assoc_Z_In; eassumption. }
+      generalize Hs. apply filter_imp. intros t Ht.
+      eapply dom_elem; try eassumption. rewrite pfree_const by assumption. assumption.
+    - (* LogLogit *)
+      match goal with H : forallb (pfree ws) avs = true |- _ => rename H into Havs end.
+      match goal with H : forall k u a v, In (k, u) _ -> _ |- _ => rename H into Hdu end.
+      pose proof Havs as Havs'. rewrite forallb_forall in Havs'.
+      assert (HU : locally x0 (fun t => Forall (fun ku =>
+                     forall a v, assoc_Z (fst ku) ak avs = Some a -> ev a en0 = XR v -> v <> 0 ->
+                                 domx t (snd ku)) (combine uk us))).
+      { apply locally_Forall. intros [k u] Hin. cbn [fst snd].
+        destruct (assoc_Z k ak avs) as [a|] eqn:Ea;
+          [|apply filter_forall; intros t a v Hf; discriminate].
+        destruct (ev a en0) as [v| |] eqn:Eva;
+          try (apply filter_forall; intros t a' v' Hf Hv; injection Hf as <-; rewrite Eva in Hv; discriminate).
+        destruct (Req_EM_T v 0) as [Hz|Hnz].
+        - apply filter_forall. intros t a' v' Hf Hv Hn. injection Hf as <-. rewrite Eva in Hv.
+          injection Hv as <-. contradiction.
+        - assert (Hd : dom Phi ws en0 u) by (eapply Hdu; eassumption).
+          assert (Hl : locally x0 (fun t => domx t u)).
+          { apply IH; [|exact Hd]. right. apply in_or_app. left. exact (in_combine_r _ _ _ _ Hin). }
+          generalize Hl. apply filter_imp. intros t Ht a' v' _ _ _. exact Ht. }
+      generalize (filter_and _ _ Le HU). apply filter_imp. intros t [Ht HUt].
+      eapply dom_loglogit; try eassumption.
+      intros k u a v Hin Ha Hv Hnz. rewrite Forall_forall in HUt.
+      apply (HUt (k, u) Hin a v Ha); [|exact Hnz].
+      rewrite <- Hv. symmetry. apply pfree_const. apply Havs'. eapply assoc_Z_In; exact Ha.
+  Qed.
+End Correct.
